@@ -1,6 +1,6 @@
 (* Props/C16.v — property C16: SECS-I blocks split, checksum and reassemble any message body without loss. *)
 From SG Require Import Base.Prelude Base.Kinds Gen.ProtoConsts Spec.E4E37Frames Model.Secs2 Model.Frames.
-From SG Require Import Proofs.FramesProofs.
+From SG Require Import Proofs.FramesProofs Base.PyRt Gen.PySecsIHdr Proofs.PySecsIHdrProofs.
 From Coq Require Import Lia.
 Open Scope N_scope.
 
@@ -94,3 +94,18 @@ Example C16_sample_in_domain :
   hdr_fields_ok sample_h /\ length (split_blocks (repeat 7 489) sample_h true) = 3%nat /\
   filter (fun b => (msg_key (sb_hdr b) =? msg_key sample_h)%Z) (split_blocks (repeat 7 489) sample_h true) = split_blocks (repeat 7 489) sample_h true.
 Proof. split; [unfold hdr_fields_ok, sample_h; cbn; lia|]. split; vm_compute; reflexivity. Qed.
+
+(* SecsIHeader.encode / decode, translated statement by statement from secsgem/secsi/header.py on every run (harness/pyfuns.py ->
+   Gen/PySecsIHdr.v; `self.x` followed to the constructor argument), are the model's header functions for every header and byte string *)
+Theorem C16_header_code_is_model :
+  (forall h, (do fs <- sh_encode (sh_of h); pack_fields secsi_header_format_enc fs) = shdr_encode h) /\
+  (forall bs, shdr_decode bs = do r <- unpack_fields secsi_header_format_dec bs;
+                               match r with
+                               | [r0; r1; r2; r3; r4] => do a <- sh_decode r0 r1 r2 r3 r4; Ok (shdr_of a)
+                               | _ => Err EValue
+                               end).
+Proof. exact (conj sh_encode_is_model sh_decode_is_model). Qed.
+Print Assumptions C16_header_code_is_model.
+Example C16_header_code_sample :
+  sh_encode (sh_of sample_h) = Ok [65535; 255; 255; 0; 4294967294]%Z /\ sh_decode 65535 255 255 0 4294967294 = Ok (sh_of sample_h).
+Proof. split; vm_compute; reflexivity. Qed.
